@@ -134,6 +134,14 @@ def run(rep, repo, tier):
     # no other function of the generator emits parentheses
     rf = find_reader(repo)
     check_own_line(rep, repo, 'C13.R5', 'the decorated list on a line is the writer\'s output for that line')
+    # the ranks the tokeniser computes are the ranks the model records (not positions counted again by the caller)
+    from .c10 import check_token_use, Reader
+    from ..loader import AnalysisError as _AE
+    for na in (2, 3):
+        try:
+            check_token_use(rep, Reader(repo, na, True), '[-na %d -twopl]' % na, rule='C13.R2')
+        except (_AE, Unknown):
+            pass                      # the reader as a whole is judged by C10
     check_indicators(rep, repo)
     check_call_sites(rep, repo, fw, wf, rf)
     try:
